@@ -667,6 +667,37 @@ class RPFamily(Family):
         m["mode"], m["val"] = mode, v
 
 
+class SeqRPFamily(Family):
+    """RecurrencePlot in the memory-saving sequential mode (sparse_rqa=True):
+    no matrix is stored, the line distributions are computed from the time
+    series and the public attribute `threshold` at query time - assigning
+    that attribute is the only way to change the threshold of such a plot
+    (the library's own cache keys list it)."""
+    name = "SequentialRecurrencePlot"
+
+    def __init__(self):
+        names = ["diagline_dist", "vertline_dist", "determinism",
+                 "laminarity", "max_diaglength", "average_diaglength",
+                 "diag_entropy", "trapping_time", "max_vertlength"]
+        self.queries = {n: call(n) for n in names}
+        self.tol = {}
+        self.mutators = {"assign_threshold": self.m_thr}
+
+    def init_model(self, case):
+        return {"x": np.array(case["x"], dtype=float),
+                "val": 0.25 + 2.0 * case["val"]}
+
+    def build(self, m):
+        from pyunicorn.timeseries import RecurrencePlot
+        return RecurrencePlot(m["x"].copy(), metric="supremum",
+                              normalize=False, threshold=m["val"],
+                              sparse_rqa=True, silence_level=3)
+
+    def m_thr(self, o, m, a):
+        o.threshold = 0.25 + 2.0 * a
+        m["val"] = 0.25 + 2.0 * a
+
+
 class JointFamily(RPFamily):
     def __init__(self):
         RPFamily.__init__(self, "RecurrenceNetwork")
@@ -743,7 +774,14 @@ class ResFamily(Family):
         vals = (list(arg) * (n * n))[:n * n]
         R = np.array(vals, dtype=float).reshape(n, n)
         R = (np.triu(R, 1) + np.triu(R, 1).T) * (m["A"] != 0)
-        o.update_resistances(R.copy())
+        if int(round(sum(arg) * 4)) % 2:
+            # the caller edits the array the object hands out (or was given)
+            # in place and passes the same object back
+            held = o.resistances
+            held[...] = R
+            o.update_resistances(held)
+        else:
+            o.update_resistances(R.copy())
         m["R"] = R
 
 
@@ -891,6 +929,7 @@ def fam(name):
             "RecurrencePlot": lambda: RPFamily("RecurrencePlot"),
             "RecurrenceNetwork": lambda: RPFamily("RecurrenceNetwork"),
             "JointRecurrenceNetwork": JointFamily,
+            "SequentialRecurrencePlot": SeqRPFamily,
             "ResNetwork": ResFamily,
             "Surrogates": SurFamily,
             "ClimateData": DataFamily,
@@ -1063,6 +1102,17 @@ def rp_cases(draw, kind):
 
 
 @st.composite
+def seq_rp_cases(draw):
+    n = draw(st.integers(7, 18))
+    x = draw(st.lists(st.integers(-12, 12).map(lambda k: k / 4.0),
+                      min_size=n, max_size=n))
+    a = st.integers(0, 19).map(lambda k: k / 20.0 + 0.02)
+    return {"family": "SequentialRecurrencePlot", "x": x, "val": draw(a),
+            "ops": draw(ops_strategy("SequentialRecurrencePlot",
+                                     {"assign_threshold": a}))}
+
+
+@st.composite
 def res_cases(draw):
     g = draw(G.connected_graph(3, 7))
     n = g["n"]
@@ -1162,6 +1212,7 @@ SUBCHECKS = [
          (4, 100), (8, 1200)),
     _sub("joint_recurrence_network",
          lambda: rp_cases("JointRecurrenceNetwork"), (3, 80), (8, 800)),
+    _sub("sequential_recurrence_plot", seq_rp_cases, (2, 80), (4, 800)),
     _sub("resistive", res_cases, (2, 80), (8, 800)),
     _sub("surrogates", sur_cases, (4, 150), (8, 2000)),
     _sub("climate_data", data_cases, (2, 100), (4, 1500)),
